@@ -6,7 +6,7 @@ package accounts
 //@ # ---------------------------------------------------------------- abstract views of the accounts module
 //@ # bal(a, addr, coin): balance; nonce(a, addr): last used nonce. The lazily loading getters and the model setters
 //@ # that define these views in terms of cache-or-tree are ASSUMED (representation axioms); the public mutators are proved.
-//@ ghost bal(a *Accounts, addr types.Address, coin types.CoinID) int
+//@ ghost bal(a *Accounts, coin types.CoinID, addr types.Address) int
 //@ ghost nonce(a *Accounts, addr types.Address) int
 //@ ghost lockUntil(a *Accounts, addr types.Address) int
 //@ ghost modelOwner(m *Model) *Accounts
@@ -20,7 +20,7 @@ package accounts
 
 //@ func (*Accounts).GetBalance
 //@   trusted
-//@   ensures result != nil && fresh(result) && result.val == bal(a, address, coin) && result.val >= 0
+//@   ensures result != nil && fresh(result) && result.val == bal(a, coin, address) && result.val >= 0
 //@   modifies accountsCache
 
 //@ func (*Accounts).GetNonce
@@ -36,8 +36,8 @@ package accounts
 //@ func (*Model).setBalance
 //@   trusted
 //@   requires amount != nil
-//@   ensures bal(modelOwner(model), modelAddr(model), coin) == old(amount.val)
-//@   modifies bal(modelOwner(model), modelAddr(model), coin), accountsCache
+//@   ensures bal(modelOwner(model), coin, modelAddr(model)) == old(amount.val)
+//@   modifies bal(modelOwner(model), coin, modelAddr(model)), accountsCache
 
 //@ func (*Model).setNonce
 //@   trusted
@@ -49,26 +49,26 @@ package accounts
 //@   serves C01 C02
 //@   let ck = a.bus.checker
 //@   requires a != nil && a.bus != nil && amount != nil
-//@   ensures set: bal(a, address, coin) == old(amount.val)
-//@   ensures reported: ledgerDelta(ck, coin) - old(ledgerDelta(ck, coin)) == bal(a, address, coin) - old(bal(a, address, coin))
-//@   modifies bal(a, address, coin), ledgerDelta(a.bus.checker, coin), accountsCache
+//@   ensures set: bal(a, coin, address) == old(amount.val)
+//@   ensures reported: ledgerDelta(ck, coin) - old(ledgerDelta(ck, coin)) == bal(a, coin, address) - old(bal(a, coin, address))
+//@   modifies bal(a, coin, address), ledgerDelta(a.bus.checker, coin), accountsCache
 
 //@ func (*Accounts).AddBalance
 //@   serves C01 C02
 //@   let ck = a.bus.checker
 //@   requires a != nil && a.bus != nil && amount != nil
-//@   ensures added: bal(a, address, coin) == old(bal(a, address, coin)) + old(amount.val)
+//@   ensures added: bal(a, coin, address) == old(bal(a, coin, address)) + old(amount.val)
 //@   ensures reported: ledgerDelta(ck, coin) == old(ledgerDelta(ck, coin)) + old(amount.val)
-//@   modifies bal(a, address, coin), ledgerDelta(a.bus.checker, coin), accountsCache
+//@   modifies bal(a, coin, address), ledgerDelta(a.bus.checker, coin), accountsCache
 
 //@ func (*Accounts).SubBalance
 //@   serves C01 C02
 //@   let ck = a.bus.checker
 //@   requires a != nil && a.bus != nil && amount != nil
-//@   requires enough: bal(a, address, coin) >= amount.val && amount.val >= 0
-//@   ensures subtracted: bal(a, address, coin) == old(bal(a, address, coin)) - old(amount.val) && bal(a, address, coin) >= 0
+//@   requires enough: bal(a, coin, address) >= amount.val && amount.val >= 0
+//@   ensures subtracted: bal(a, coin, address) == old(bal(a, coin, address)) - old(amount.val) && bal(a, coin, address) >= 0
 //@   ensures reported: ledgerDelta(ck, coin) == old(ledgerDelta(ck, coin)) - old(amount.val)
-//@   modifies bal(a, address, coin), ledgerDelta(a.bus.checker, coin), accountsCache
+//@   modifies bal(a, coin, address), ledgerDelta(a.bus.checker, coin), accountsCache
 
 //@ func (*Accounts).SetNonce
 //@   serves C04 C03
